@@ -101,8 +101,10 @@ pub fn spurious_rejection_verdict(sec: &str, msg: &str, csv: &str, rows: &[HRow]
 }
 
 pub fn check_accept(case: &LedgerCase, obs: &mut Obs) -> Verdict {
-    let files = case.files();
-    let csv = &files[0].1;
+    // a third of the histories are handed over as two or three files (same row order)
+    let files = case.files_maybe_split();
+    let csv_joined: String = if files.len() == 1 { files[0].1.clone() } else { files.iter().map(|(n, t)| format!("--- {n}\n{t}")).collect() };
+    let csv = &csv_joined;
     let res = match run_deltas(&files, &case.run_opts()) {
         Ok(r) => r,
         Err(RunErr::Panic(p)) => return classify_panic(&p, csv),
@@ -267,8 +269,10 @@ pub fn money(s: &str) -> Option<Rat> {
 
 pub fn check_reject(c: &RejectCase, obs: &mut Obs) -> Verdict {
     let case = &c.ledger;
-    let files = case.files();
-    let csv = &files[0].1;
+    // a third of the histories are handed over as two or three files (same row order)
+    let files = case.files_maybe_split();
+    let csv_joined: String = if files.len() == 1 { files[0].1.clone() } else { files.iter().map(|(n, t)| format!("--- {n}\n{t}")).collect() };
+    let csv = &csv_joined;
     let sec = &c.sec;
     let sec_rows = case.sec_rows(sec);
     let model: MResult = model_for(&sec_rows, case.opening_for(sec));
